@@ -67,7 +67,7 @@ func randInt(r *Rng) int64 { return intValues[r.Intn(len(intValues))] }
 
 // leaf kinds by family
 var scalarKinds = []string{"bool", "int", "int8", "int16", "int32", "int64", "uint", "uint8", "uint16", "uint32", "uint64", "uintptr",
-	"float32", "float64", "complex64", "complex128", "string", "bytes", "NInt", "NStr", "NBool", "NFloat", "NBytes", "NUint8", "barr", "barr8", "nbarr", "nbslice", "SNArr", "nil"}
+	"float32", "float64", "complex64", "complex128", "string", "bytes", "NInt", "NStr", "NBool", "NFloat", "NBytes", "NUint8", "barr", "barr8", "nbarr", "nbslice", "SNArr", "TagStruct", "TagNilPtr", "TagNilChan", "TagMap", "nil"}
 var pointerKinds = []string{"ptrInt", "nilPtrInt", "ptrStr", "nilMap", "nilSlice", "nilChan", "nilFunc", "ptrptr", "parr", "iarr", "sarr", "SArr", "SNils", "NFunc"}
 var addrKinds = []string{"chan", "func", "uptr", "NChan"}
 var methodKinds = []string{"Stringer", "PStringer", "NilPStringer", "PStringerVal", "Err", "StdErr", "WrapErr", "PErr", "NilPErr", "ErrStringer",
@@ -118,7 +118,7 @@ func leafOfKind(r *Rng, k string, o genOpts) *D {
 	case "SArr":
 		d.S = QS(randPayload(r, o))
 		d.N = randInt(r)
-	case "string", "NStr", "bytes", "NBytes", "barr", "barr8", "nbarr", "nbslice", "SNArr", "ptrStr", "parr", "sarr", "Stringer", "PStringer", "PStringerVal", "Err", "StdErr", "WrapErr", "PErr", "ErrStringer",
+	case "string", "NStr", "bytes", "NBytes", "barr", "barr8", "nbarr", "nbslice", "SNArr", "TagStruct", "TagMap", "ptrStr", "parr", "sarr", "Stringer", "PStringer", "PStringerVal", "Err", "StdErr", "WrapErr", "PErr", "ErrStringer",
 		"GoStringer", "GoStrStringer", "Fmter", "PadFmter", "ErrFmter", "SVStr", "SVBytes", "SVStringer", "ISafeString", "ISafeBytes", "RegStr", "SafeMsg":
 		d.S = QS(randPayload(r, o))
 		if k == "bytes" && r.Chance(1, 15) {
